@@ -51,8 +51,9 @@ IsW == TraceLog[l].ev = "step" /\ TraceLog[l].fam = "w"
 IsR == TraceLog[l].ev = "step" /\ TraceLog[l].fam = "r"
 \* one served connection: alone (conc <= 1: the stream-level outcome) or next to conc - 1 other connections to the same
 \* server (driven in lock step, so kinds[i] is the kind of the response to the i-th frame)
-StreamOK == IF last'.conc > 1 THEN C12_Conn(last'.items, last'.kinds, last'.nrep, status', last'.pan, last'.big)
-            ELSE C12_Stream(last'.items, last'.nrep, status', last'.pan, last'.big)
+StreamOK == /\ IF last'.conc > 1 THEN C12_Conn(last'.items, last'.kinds, last'.nrep, status', last'.pan, last'.big)
+               ELSE C12_Stream(last'.items, last'.nrep, status', last'.pan, last'.big)
+            /\ C12_Sized(last'.items, last'.sizedok)
 TC12 == [][IsW => StreamOK]_tvars
 TC13 == [][IsR => C13_Step]_tvars
 Rep(name, P) == P \/ PrintT(<<"REJ", name, l>>)
